@@ -57,9 +57,12 @@ def _run(case):
     # a second attribute changes at the same instants through events of LOWER priority than a measurement (between
     # OTHER_LOW_PRIORITY and SENSOR): a sample taken at such an instant shows the value before the change
     tg.u = 0
+    tg.e = []       # empty (falsy) at the first measurements, filled in place from T/2 on
 
     def bump_u():
         tg.u += 1
+        if env.now >= T / 2:
+            tg.e.append(tg.u)
     for b in bumps:
         env.schedule_event(b, -6, bump_u, EventType.SENSOR - 1)
     box = {}
@@ -85,7 +88,7 @@ def _run(case):
 
     def make_periodic():
         ps = PeriodicSensor(iv, [AttributeProbe('w', tg), Probe(lambda t: t.v, tg), AttributeProbe('v', tg),
-                                 AttributeProbe('u', tg)], 'ps',
+                                 AttributeProbe('u', tg), AttributeProbe('e', tg)], 'ps',
                             data_capacity=cap)
         box['ps'] = ps
         for i in range(case['ncb']):
@@ -111,6 +114,16 @@ def _run(case):
             c2.add_sensor(ps)       # a second monitoring system listens to the same sensor
     if t0:
         env.schedule_event(t0, -6, make_periodic, EventType.OTHER_HIGH_PRIORITY + 1)
+    elif case.get('init'):
+        # the sensor is built by another asset while that asset is being initialised (a machine that brings its own
+        # instrumentation)
+        from simprocesd.model.factory_floor import Asset
+
+        class Maker(Asset):
+            def initialize(self, env_):
+                super().initialize(env_)
+                make_periodic()
+        Maker('maker')
     else:
         make_periodic()
     if case.get('readd') and not t0 and 'ps' in case['cms']:
@@ -132,6 +145,8 @@ def _run(case):
             break
         times.append(t)
     keep = times if cap == INF else times[-cap:]
+    if 'time' not in ps.data:
+        raise Violation('C19.time-series', f'the periodic sensor has no time series after a run of {T}: it never started')
     if ps.data['time'] != keep:
         raise Violation('C19.time-series', f'periodic sensor (interval {iv}, capacity {case["cap"]}) time series has '
                         f'{len(ps.data["time"])} entries {ps.data["time"][:4]}..{ps.data["time"][-2:]}, expected the most '
@@ -151,6 +166,14 @@ def _run(case):
         raise Violation('C19.probe-series', f'series of an attribute that changes at the sampling instants through events of '
                         f'lower priority than the measurement: {ps.data[pr[3]][-5:]}, expected the values before those '
                         f'changes {expu[-5:]}')
+    def e_at(x):
+        return [k + 1 for k, b in enumerate(bumps) if b < x and b >= T / 2]
+    expe = [e_at(x) for x in keep]
+    if ps.data[pr[4]] != expe:
+        k = next(i for i in range(len(expe)) if i >= len(ps.data[pr[4]]) or ps.data[pr[4]][i] != expe[i])
+        raise Violation('C19.copy', f'series of a list attribute that is empty at first and filled in place later: the entry for '
+                        f'{keep[k]} reads {str(ps.data[pr[4]][k] if k < len(ps.data[pr[4]]) else None)[:60]}, the list was '
+                        f'{str(expe[k])[:60]} at that moment')
     if len(ps.data[pr[1]]) != len(keep):
         raise Violation('C19.alignment', f'list-probe series has {len(ps.data[pr[1]])} entries, time series {len(keep)}')
     for x, lst in zip(keep, ps.data[pr[1]]):
@@ -170,7 +193,7 @@ def _run(case):
         raise Violation('C19.callbacks', f'on-sense callbacks (index, time) {[(x[0], x[2]) for x in cb][:6]} expected '
                         f'{exp_cb[:6]}')
     for (i, se, t_, d, now) in cb:
-        if se is not ps or t_ != now or d != [w_at(t_), list(range(0, w_at(t_) + 1)), list(range(0, w_at(t_) + 1)), u_at(t_)]:
+        if se is not ps or t_ != now or d != [w_at(t_), list(range(0, w_at(t_) + 1)), list(range(0, w_at(t_) + 1)), u_at(t_), e_at(t_)]:
             raise Violation('C19.callback-args', f'on-sense callback {i} at {now} got (sensor ok={se is ps}, time {t_}, '
                             f'values {str(d)[:60]})')
     # ---- output part sensor: first finished part, then every (n+1)-th
